@@ -552,7 +552,7 @@ def compile_assign(
         if let_scope:
             target = let_scope.add(target)
 
-    if result.temp_variables and isinstance(target, Symbol):
+    if result.temp_variables and isinstance(target, Symbol) and ann is None:
         result.rename(compiler, compiler._nonconst(target))
         if not is_assignment_expr:
             # Throw away .expr to ensure that (setv ...) returns None.
